@@ -190,6 +190,37 @@ def build_track(tspec):
     return t
 
 
+def change_track(rng, tspec, tobj, new_bar, new_notes):
+    """Change a built Track in place and its spec alike (so that it can be exported / written / played again):
+    new content for one entry through bar[i] = ..., the last entry of the last bar removed, a new bar appended.
+    new_bar() -> bar spec in the key / meter the caller wants; new_notes() -> note list. Returns what was done."""
+    done = []
+    for _ in range(rng.randint(1, 3)):
+        how = rng.choice(["setitem", "remove-last", "add-bar"])
+        if how == "setitem":
+            ks = [k for k, b in enumerate(tspec["bars"]) if b["entries"]]
+            if not ks:
+                continue
+            k = rng.choice(ks)
+            i = rng.randrange(len(tspec["bars"][k]["entries"]))
+            notes = new_notes()
+            tobj.bars[k][i] = build_notes(notes)
+            tspec["bars"][k]["entries"][i] = dict(tspec["bars"][k]["entries"][i], notes=notes)
+        elif how == "remove-last":
+            if not tspec["bars"] or not tspec["bars"][-1]["entries"] or any(b.get("reuse_of") is not None for b in tspec["bars"]):
+                continue
+            if any(b["entries"] is tspec["bars"][-1]["entries"] for b in tspec["bars"][:-1]):
+                continue
+            tobj.bars[-1].remove_last_entry()
+            tspec["bars"][-1]["entries"].pop()
+        else:
+            bs = new_bar()
+            tobj.add_bar(build_bar(bs))
+            tspec["bars"].append(bs)
+        done.append(how)
+    return done
+
+
 def build_composition(cspec):
     from mingus.containers import Composition
     c = Composition()
